@@ -1,7 +1,213 @@
 package c02
 
-import "verif/internal/ref/validate"
+import (
+	"fmt"
 
-func (k *ck) classify(cs *Case, rule, sig string, res map[string]validate.Result) string { return "" }
-func (k *ck) classifyAll(cs *Case, res map[string]validate.Result, libValid bool) string  { return "" }
-func (k *ck) witnesses()                                                                   {}
+	"verif/internal/build"
+	"verif/internal/model"
+	"verif/internal/nast"
+	"verif/internal/ref/syntax"
+	"verif/internal/ref/validate"
+)
+
+// WitnessModel is the small fixed schema the witness list (and ad-hoc
+// probes) run against:
+//
+//	type Q { a(i: Int): String  b: String  n(x: Int!): String  f(in: In): String  g(e: E, l: [Int]): Int
+//	         o: O  os: [O]  i: I  u: U }
+//	type O implements I { x: String  y: Int  o: O }
+//	type P implements I { x: String  y: String  z: Float }
+//	interface I { x: String }     union U = O | P
+//	input In { a: Int  b: In2  l: [In2] }   input In2 { c: Int  d: Int }
+//	enum E { A B }
+func WitnessModel() *model.Schema {
+	N := model.Named
+	str, in := N("String"), N("Int")
+	m := &model.Schema{Query: "Q", Types: []*model.TypeDef{
+		{Kind: model.Enum, Name: "E", Values: []*model.EnumVal{{Name: "A", Internal: "A"}, {Name: "B", Internal: "B"}}},
+		{Kind: model.InputObject, Name: "In2", InputFields: []*model.InputDef{{Name: "c", Type: in}, {Name: "d", Type: in}}},
+		{Kind: model.InputObject, Name: "In", InputFields: []*model.InputDef{{Name: "a", Type: in}, {Name: "b", Type: N("In2")}, {Name: "l", Type: model.ListOf(N("In2"))}}},
+		{Kind: model.Interface, Name: "I", Fields: []*model.FieldDef{{Name: "x", Type: str}}},
+		{Kind: model.Object, Name: "O", Interfaces: []string{"I"}, Fields: []*model.FieldDef{{Name: "x", Type: str}, {Name: "y", Type: in}, {Name: "o", Type: N("O")}}},
+		{Kind: model.Object, Name: "P", Interfaces: []string{"I"}, Fields: []*model.FieldDef{{Name: "x", Type: str}, {Name: "y", Type: str}, {Name: "z", Type: N("Float")}}},
+		{Kind: model.Union, Name: "U", Members: []string{"O", "P"}},
+		{Kind: model.Object, Name: "Q", Fields: []*model.FieldDef{
+			{Name: "a", Type: str, Args: []*model.InputDef{{Name: "i", Type: in}}},
+			{Name: "b", Type: str},
+			{Name: "n", Type: str, Args: []*model.InputDef{{Name: "x", Type: model.NonNull(in)}}},
+			{Name: "f", Type: str, Args: []*model.InputDef{{Name: "in", Type: N("In")}}},
+			{Name: "g", Type: in, Args: []*model.InputDef{{Name: "e", Type: N("E")}, {Name: "l", Type: model.ListOf(in)}}},
+			{Name: "o", Type: N("O")},
+			{Name: "os", Type: model.ListOf(N("O"))},
+			{Name: "i", Type: N("I")},
+			{Name: "u", Type: N("U")},
+		}},
+	}, Extra: []string{"O", "P"}}
+	m.Reindex()
+	return m
+}
+
+// witnessTexts are minimal documents for every defect class found so far and
+// for the repaired defects the property names; they run through the same
+// differential as every generated case (no hand-written expectations).
+var witnessTexts = []string{
+	// overlap through fragment chains (D4, repaired)
+	"{ x: a ...F } fragment F on Q { ...G } fragment G on Q { x: b }",
+	"{ x: a ...F } fragment F on Q { ...G } fragment G on Q { ...H } fragment H on Q { x: b }",
+	"{ ...F ...G } fragment F on Q { x: a } fragment G on Q { ...H } fragment H on Q { x: b }",
+	"{ o { x: x } ...F } fragment F on Q { o { ...G } } fragment G on O { x: y }",
+	"{ a(i: 1) ...F } fragment F on Q { ...G } fragment G on Q { a(i: 2) }",
+	"{ ...F } fragment F on Q { x: a ...G } fragment G on Q { x: b ...F }",
+	// inline fragment without type condition inside a list field (D20, repaired)
+	"{ os { ... { x } } }",
+	// nested input objects
+	"{ f(in: {b: {c: 1, c: 2}}) }",
+	"{ f(in: {a: 1, a: 2}) }",
+	"{ f(in: {l: [{c: 1, c: 1}]}) }",
+	"{ f(in: {l: [{c: 1}, {d: 2, d: 2}]}) }",
+	"query($v: In = {b: {c: 1, c: 2}}) { f(in: $v) }",
+	// anonymous operations
+	"{ a } { b }",
+	"query { a } { b } query A { a }",
+	// Int range
+	"{ a(i: 2147483648) }", "{ a(i: -2147483649) }", "{ a(i: 2147483647) }", "{ a(i: -2147483648) }",
+	"query($v: Int = -2147483649) { a(i: $v) }",
+	// response shape under exclusive parents, __typename included
+	"{ u { ... on O { k: y } ... on P { k: y } } }",
+	"{ u { ... on O { k: y } ... on P { k: __typename } } }",
+	"{ u { ... on O { k: x } ... on P { k: __typename } } }",
+	"{ i { ... on O { k: x } ... on P { k: z } } }",
+	// unknown directive arguments are not typed by the field (repaired)
+	"{ a(i: 1) @nosuch(i: \"x\") }",
+	// variables: default widening, list-ness
+	"query($v: Int = 1) { n(x: $v) }", "query($v: Int) { n(x: $v) }", "query($v: Int! = 1) { n(x: $v) }",
+	"query($v: Int) { g(l: $v) }", "query($v: [Int]) { g(l: [$v]) }", "query($v: Int) { g(l: [$v]) }",
+	// unknown types, wrapped and bare
+	"query($v: Nope) { a(i: $v) }", "query($v: Nope!) { a(i: $v) }", "query($v: [Nope]) { a(i: $v) }",
+	"query($v: ID) { a }", "query($v: Float) { a }",
+	// cycles
+	"{ ...F } fragment F on Q { ...F }",
+	"{ ...F } fragment F on Q { o { ...G } } fragment G on O { o { ...G } }",
+	"{ a } fragment F on Q { ...G } fragment G on Q { ...F }",
+	"{ o { ...R } o { ...R } } fragment R on O { o { ...R } }",
+	"{ o { ...R } o { ...S } } fragment R on O { k: x o { ...R } } fragment S on O { o { ...S k: y } }",
+}
+
+func (k *ck) witnesses() {
+	c := k.c
+	if c.Batch != 0 {
+		return
+	}
+	m := WitnessModel()
+	env, err := build.Build(m, 7)
+	if err != nil {
+		c.Violation("harness:schema-build", err.Error(), nil)
+		return
+	}
+	for i, text := range witnessTexts {
+		if !c.Begin(fmt.Sprintf("witness/%d", i)) {
+			continue
+		}
+		doc, perr := syntax.Parse([]byte(text))
+		if perr != nil {
+			c.Violation("harness:witness-text", "witness text rejected by the reference parser: "+perr.Msg, text)
+			continue
+		}
+		k.evaluate(&Case{Env: env, Doc: doc, Text: text, Origin: "witness"})
+		c.Feature("witness")
+	}
+}
+
+// ---- defect classes: each is decided by an INPUT predicate (on the
+// document and the reference's findings), never by the library's output.
+
+// nestedOnly: every sure offence of UniqueInputFieldNames sits in an object
+// value that is (directly or indirectly) the value of an input-object field.
+func nestedInputDuplicatesOnly(doc *nast.Document, offs []validate.Offence) bool {
+	nested := map[nast.Node]bool{}
+	var visit func(n nast.Node, inField bool)
+	visit = func(n nast.Node, inField bool) {
+		switch v := n.(type) {
+		case *nast.ObjectValue:
+			if inField {
+				for _, f := range v.Fields {
+					nested[f.Name] = true
+				}
+			}
+		case *nast.ObjectField:
+			inField = true
+		}
+		for _, ch := range nast.Children(n) {
+			visit(ch, inField)
+		}
+	}
+	visit(doc, false)
+	any := false
+	for _, o := range offs {
+		if o.Optional || len(o.Nodes) == 0 {
+			continue
+		}
+		any = true
+		if !nested[o.Nodes[0]] {
+			return false
+		}
+	}
+	return any
+}
+
+func anonymousOps(doc *nast.Document) int {
+	n := 0
+	for _, d := range doc.Defs {
+		if op, ok := d.(*nast.Operation); ok && op.Name == nil {
+			n++
+		}
+	}
+	return n
+}
+
+const (
+	sigNestedInputDup = "defect:unique-input-field-names-nested"
+	sigAnonUnique     = "defect:unique-operation-names-anonymous"
+	sigTypenameShape  = "defect:overlap-typename-untyped"
+)
+
+// typenameShapeOnly: the overlap rule is violated, but would not be if the
+// meta field __typename had no known type (input predicate: the reference
+// re-run under that relaxation finds no sure offence).
+func typenameShapeOnly(cs *Case) bool {
+	for _, last := range []bool{false, true} {
+		if validate.Violated(validate.CheckRuleWith(validate.OverlappingFieldsCanBeMerged, cs.Env.Model, cs.Doc, validate.Options{TypenameUntyped: true, PickLast: last})) {
+			return false
+		}
+	}
+	return true
+}
+
+// classify maps a per-rule disagreement to a known defect class ("" = none).
+func (k *ck) classify(cs *Case, rule, sig string, res map[string]validate.Result) string {
+	switch {
+	case sig == "accept:"+validate.UniqueInputFieldNames && nestedInputDuplicatesOnly(cs.Doc, res[rule].Offences):
+		return sigNestedInputDup
+	case sig == "reject:"+validate.UniqueOperationNames && anonymousOps(cs.Doc) >= 2:
+		return sigAnonUnique
+	case sig == "accept:"+validate.OverlappingFieldsCanBeMerged && typenameShapeOnly(cs):
+		return sigTypenameShape
+	}
+	return ""
+}
+
+// classifyAll: the document's ONLY sure violation belongs to a defect class
+// in which the library stays silent, so all-rules / Do agree with that class.
+func (k *ck) classifyAll(cs *Case, res map[string]validate.Result, libValid bool) string {
+	if !libValid {
+		return ""
+	}
+	vs := validate.ViolatedRules(res)
+	if len(vs) == 1 && vs[0] == validate.UniqueInputFieldNames && nestedInputDuplicatesOnly(cs.Doc, res[vs[0]].Offences) {
+		return sigNestedInputDup
+	}
+	if len(vs) == 1 && vs[0] == validate.OverlappingFieldsCanBeMerged && typenameShapeOnly(cs) {
+		return sigTypenameShape
+	}
+	return ""
+}
